@@ -32,3 +32,6 @@ func extraPlans() []nrun.Plan {
 	take(xscen.Plans(), 4)    // Close placements: produce, consume, consume-limited, group
 	return out
 }
+
+// genExtra: generated families of other checks (C03 BG).
+func genExtra() []nrun.Plan { return bscen.GenPlans() }
